@@ -1,6 +1,8 @@
 """C31 -- manifest queries report what the manifest declares (DESIGN.md section 6, C31).
 
-P: Props/C31.lean over Model/Manifest.lean (queries on the abstract XML tree) and Spec/Manifest.lean (ManifestModel + toXml).
+P: Props/C31.lean over Model/Manifest.lean (queries on the abstract XML tree), Spec/Manifest.lean (ManifestModel + toXml), Spec/ManifestFull.lean
+   (AppManifest: uses-sdk, maxSdkVersion, aliases, enabled flags, intent filters) and Spec/ManifestFile.lean (docOf: the AXML document; composition
+   with C26 axml_roundtrip_norm in manifest_queries_on_file).
 T: random manifest models -> harness/axmlwriter -> harness/zipwriter -> real APK(data, raw=True); every listed getter is compared
    with the Lean model (drv_C31 = Model/Axml.printAxml composed with Model/Manifest.analyse) on the same bytes.  A second stream
    of hostile manifests (bare attributes, wrong root, nested / namespaced tags, odd SDK strings) is correspondence only.
@@ -519,9 +521,13 @@ def run(ck: Check):
         reqs.append("pyint " + cps(s)); real.append(r)
     ck.compare("python-int", reqs, real, drv.ask(reqs))
     ck.cover(dist={"skipped": skipped})
-    ck.partial.append("the theorems are about the queries on the abstract XML tree (Model/Manifest over Spec/Manifest.toXml); that the tree "
-                      "the queries see is the tree of the APK's AndroidManifest.xml (C26 printer, lxml, zip reading) is covered by the "
-                      "correspondence and the oracle only")
+    ck.partial.append("the theorems go from the bytes of AndroidManifest.xml to the answers (manifest_queries_on_file: C26 printer model composed "
+                      "with the query model, for every well-formed manifest of Spec/ManifestFull.AppManifest and every AXML encoding choice); that "
+                      "those bytes are what apkInspector reads out of the archive, and that lxml / CPython's codecs behave like their models, is "
+                      "covered by the correspondence and the oracle only")
+    ck.notes.append("theorem domain: AppManifest.WF (non-empty names / values; MAIN and LAUNCHER under one component name sit in one filter), "
+                    "AppManifest.fits (uint32 data) and C26's wfDoc for the chosen encoding; manifests outside it (hostile stream) are compared "
+                    "with the model only")
     ck.assumptions.append("results that androguard produces by iterating a Python set of lxml elements are compared as sorted lists; "
                           "lxml findall/get and the zip reader (apkInspector) are modelled, not verified")
     ck.assumptions.append("interpretation: 'main activity' = an enabled activity or alias with a filter holding both MAIN and LAUNCHER; "
